@@ -459,30 +459,34 @@ func (r *srvRun) step(st map[string]any, ev map[string]any) error {
 	slot := intOf(st["c"])
 	c := r.cl[slot]
 	switch op {
-	case "connect":
+	case "connect", "dial":
 		ip, _ := st["addr"].(string)
-		// time is the environment: a planted short ban that has run out in real time is reported as an event
-		if t, ok := r.soon[ip]; ok {
-			// a wide ambiguous window: if less than 1.5 s of the ban are left the driver waits it out, so that the
-			// server's own clock reading cannot disagree with the reported class even on a heavily loaded machine
-			if d := time.Until(t); d < 1500*time.Millisecond {
-				if d > -150*time.Millisecond {
-					time.Sleep(d + 150*time.Millisecond)
-				}
-				delete(r.soon, ip)
-				r.extra = append(r.extra, map[string]any{"op": "expire", "addr": ip})
-			}
-		}
+		r.expireIfDue(ip)
 		r.port++
 		c = r.w.DialWith(fmt.Sprintf("%s:%d", ip, r.port), r.g.bind(slot))
 		r.cl[slot] = c
 		r.ips[slot] = ip
 		r.pending[slot] = map[uint32]string{}
 		r.settle[slot] = map[uint32]bool{}
+		if op == "dial" {
+			// accepted, nothing sent yet: the handler waits for the handshake
+			if err := c.WaitServerIdleOrDone(10 * time.Second); err != nil {
+				ev["busy"] = true
+			}
+			break
+		}
 		if err := c.Handshake(10 * time.Second); err != nil {
 			ev["nohandshake"] = true // observed
 		}
 		// either the server now waits for the login (past the door) or it refuses and closes
+		if err := c.WaitServerIdleOrDone(10 * time.Second); err != nil {
+			ev["busy"] = true
+		}
+	case "handshake":
+		r.expireIfDue(r.ips[slot])
+		if err := c.Handshake(10 * time.Second); err != nil {
+			ev["nohandshake"] = true // observed
+		}
 		if err := c.WaitServerIdleOrDone(10 * time.Second); err != nil {
 			ev["busy"] = true
 		}
@@ -744,6 +748,21 @@ func (r *srvRun) step(st map[string]any, ev map[string]any) error {
 	return nil
 }
 
+// expireIfDue: time is the environment: a planted short ban that has run out in real time is reported as an event.
+func (r *srvRun) expireIfDue(ip string) {
+	if t, ok := r.soon[ip]; ok {
+		// a wide ambiguous window: if less than 1.5 s of the ban are left the driver waits it out, so that the
+		// server's own clock reading cannot disagree with the reported class even on a heavily loaded machine
+		if d := time.Until(t); d < 1500*time.Millisecond {
+			if d > -150*time.Millisecond {
+				time.Sleep(d + 150*time.Millisecond)
+			}
+			delete(r.soon, ip)
+			r.extra = append(r.extra, map[string]any{"op": "expire", "addr": ip})
+		}
+	}
+}
+
 // banClass reads the ban list file and classifies the entry of ip relative to now.
 func (r *srvRun) banClass(ip string) string {
 	m, err := sim.ReadBanFile(r.w.Config + "/Banlist.yaml")
@@ -874,6 +893,31 @@ func decorateScript(sc *srvScript, seed int64) {
 			b[i] = rng.Intn(256)
 		}
 		return b
+	}
+	// passwords: every non-empty password of the script is padded (the same way everywhere, so equal stays equal and
+	// different stays different - in the LAST byte) to a length at or next to bcrypt's 72-byte limit
+	if padTo := []int{0, 0, 40, 71, 72, 72}[rng.Intn(6)]; padTo > 0 {
+		pad := func(v []int) []int {
+			if len(v) == 0 || len(v) >= padTo {
+				return v
+			}
+			b := make([]int, 0, padTo)
+			for i := 0; i < padTo-len(v); i++ {
+				b = append(b, 65+i%23)
+			}
+			return append(b, v...)
+		}
+		for l, a := range sc.World.Accts {
+			a.Pw = pad(a.Pw)
+			sc.World.Accts[l] = a
+		}
+		for _, st := range sc.Steps {
+			for _, k := range []string{"pw", "newpw"} {
+				if v, ok := st[k]; ok {
+					st[k] = pad(sim.Ints(bytesOf(v)))
+				}
+			}
+		}
 	}
 	for _, st := range sc.Steps {
 		switch st["op"] {
